@@ -106,3 +106,36 @@ Proof.
   - split; [vm_compute; lia|]. split; [lia|]. vm_compute. intros H. repeat (destruct H as [H|H]; [lia|]). exact H.
   - split; [vm_compute; lia|]. split; [lia|]. vm_compute. intros H. repeat (destruct H as [H|H]; [lia|]). exact H.
 Qed.
+
+(* ---- audit follow-up: the reference writes on the model, with the copy in place ----
+   $a = [3,1,2]; $b = $a; f($b[1]) with f(&$x){ $x = 99; }  leaves $a alone and changes $b[1] *)
+Definition st_rc : state := run [SLit "a" (LList [LInt 3; LInt 1; LInt 2]); SCopy "b" "a"] state0.
+Example ex_refparam_after_copy :
+  let st1 := exec st_rc (SRefParamStore (BVar "b") [KI 1] 99) in
+  obs_var 3 st1 "a" = TArr [(TKI 0, TInt 3); (TKI 1, TInt 1); (TKI 2, TInt 2)] /\
+  obs_var 3 st1 "b" = TArr [(TKI 0, TInt 3); (TKI 1, TInt 99); (TKI 2, TInt 2)].
+Proof. vm_compute. split; reflexivity. Qed.
+(* the same store without OwnSlot (writing the shared cell, what the code did before b95af9a) shows through *)
+Example ex_refparam_shared_cell_leaks :
+  let h := hp st_rc in
+  let b := match var_val st_rc "b" with VArr b => b | _ => 0%nat end in
+  let c := nth 1 (spine h b) 0%nat in
+  obs 3 (set_cell h c {| cname := cname (cell_at h c); cval := VInt 99; cref := false |}) (var_val st_rc "a")
+  = TArr [(TKI 0, TInt 3); (TKI 1, TInt 99); (TKI 2, TInt 2)].
+Proof. vm_compute. reflexivity. Qed.
+Example ex_usort_after_copy :
+  let st1 := exec st_rc (SUsort "b") in
+  obs_var 3 st1 "a" = TArr [(TKI 0, TInt 3); (TKI 1, TInt 1); (TKI 2, TInt 2)] /\
+  obs_var 3 st1 "b" = TArr [(TKI 0, TInt 1); (TKI 1, TInt 2); (TKI 2, TInt 3)].
+Proof. vm_compute. split; reflexivity. Qed.
+(* $x = &$a[0]; $b = $a : the reference-bound slot stays shared by both arrays (PHP does the same); a write
+   through $x is seen by both, a store to $b[1] by $b only *)
+Example ex_ref_slot_then_copy :
+  let st1 := run [SRefSlot "x" "a" 0; SCopy "b" "a"; SSetInt "x" 7; SMut (BVar "b") [KI 1] (AStore 8)]
+                 (run [SLit "a" (LList [LInt 3; LInt 1])] state0) in
+  obs_var 3 st1 "a" = TArr [(TKI 0, TInt 7); (TKI 1, TInt 1)] /\
+  obs_var 3 st1 "b" = TArr [(TKI 0, TInt 7); (TKI 1, TInt 8)].
+Proof. vm_compute. split; reflexivity. Qed.
+(* hypotheses of ref_store_snapshot are satisfiable: the array of st_two *)
+Example ex_ref_store_snapshot_hyp : exists c0, zval_pos (hp st_two) 5 (KI 1) = Some 1%nat /\ nth_error (spine (hp st_two) 5) 1 = Some c0.
+Proof. eexists. vm_compute. split; reflexivity. Qed.
